@@ -1,10 +1,33 @@
 import CoxeterVerif.Driver.Proto
+import CoxeterVerif.Model.Polyhedron
 
 namespace OpsC02
+
+def triOut {α} [Codec α] (t : Tri α) : String := s!"{Out.v3 t.a} {Out.v3 t.b} {Out.v3 t.c}"
 
 /-- driver ops of C02. `none` = unknown op. -/
 def run (α : Type) [Scalar α] [Codec α] (op : String) (c : Ctx) : Option (Rd String) :=
   match op with
+  | "polytri.triangulate" => some do
+      -- in: polygon vertices ; out: i<ntri> then 9 scalars per triangle | E:ValueError
+      let poly : List (V3 α) ← Rd.list c (Rd.v3 c)
+      match Polytri.triangulate poly with
+      | .ok tris => pure (s!"i{tris.length} " ++ " ".intercalate (tris.map triOut))
+      | .error e => pure s!"E:{e}"
+  | "poly.face_equation" => some do
+      let v0 : V3 α ← Rd.v3 c; let v1 : V3 α ← Rd.v3 c; let v2 : V3 α ← Rd.v3 c
+      let e := Poly3.faceEquation v0 v1 v2
+      pure s!"{Out.v3 e.1} {Out.sc e.2}"
+  | "poly.volume" => some do
+      -- in: list of (d_i, A_i)
+      let fs : List (α × α) ← Rd.list c (do let d ← Rd.sc c; let a ← Rd.sc c; pure (d, a))
+      pure (Out.sc (Poly3.volume fs))
+  | "poly.measures" => some do
+      -- in: surface triangles, volume ; out: centroid(3) inertia(9)
+      let S : List (Tri α) ← Rd.list c (Rd.tri c)
+      let vol : α ← Rd.sc c
+      let cen := Poly3.centroid S
+      pure s!"{Out.v3 cen} {Out.m3 (Poly3.inertia S cen vol)}"
   | _ => none
 
 end OpsC02
